@@ -86,7 +86,11 @@ Chains2 == {Chain(<<q[1], q[2]>>) : q \in {p \in (Stub0(Outs) \cup Real) \X (Stu
                                                 p[2].impl = "stub" \/ p[2].impl # p[1].impl}}
            \cup {Chain(<<a, b>>) : a \in StubD(Outs3), b \in Stub0(Outs3)}
            \cup {Chain(<<a, b>>) : a \in Stub0(Outs3), b \in StubD(Outs3)}
+DeclOuts == {"miss", "exp", "pe"} \cap Outs
 Chains3 == {Chain(<<a, b, c>>) : a \in Stub0(Outs3), b \in Stub0(Outs3), c \in Stub0(Outs3) \cup {Leaf("bearer", FALSE, "miss")}}
+           \cup {Chain(<<a, b, c>>) : a \in StubD(DeclOuts), b \in Stub0(DeclOuts), c \in Stub0(DeclOuts)}
+           \cup {Chain(<<a, b, c>>) : a \in Stub0(DeclOuts), b \in StubD(DeclOuts), c \in Stub0(DeclOuts)}
+           \cup {Chain(<<a, b, c>>) : a \in Stub0(DeclOuts), b \in Stub0(DeclOuts), c \in StubD(DeclOuts)}
 ReqAlls == {ReqAll(g, i) : g \in Gates, i \in {None} \cup Leaves}
 Nested == {ReqAll(g, Chain(<<a, b>>)) : g \in Gates, a \in Stub0(Outs3), b \in Stub0(Outs3)}
           \cup {Chain(<<ReqAll(g, a), b>>) : g \in Gates, a \in Stub0(Outs3), b \in Stub0(Outs3)}
@@ -108,7 +112,9 @@ SmallTrees == {t \in Leaves : t.out \in {"miss", "exp", "pe", "proof", "down", "
                     ReqAll([impl |-> "stubgate", decl |-> TRUE, out |-> "pass"], Leaf("stub", FALSE, "exp"))}
 Cases == [cfg : {Cfg0}, tree : Trees, accept : {"any"}, route : {"unary"}]
          \cup [cfg : Cfgs, tree : SmallTrees, accept : Accepts, route : {"unary"}]
-         \cup [cfg : {Cfg0, [pah |-> TRUE, ppr |-> FALSE, pkce |-> FALSE]}, tree : SmallTrees, accept : {"any", "html"}, route : Routes]
+         \cup (IF Deep THEN [cfg : {g \in Cfgs : ~g.pkce}, tree : SmallTrees, accept : Accepts, route : Routes]
+                     ELSE [cfg : {Cfg0, [pah |-> TRUE, ppr |-> FALSE, pkce |-> FALSE]}, tree : SmallTrees,
+                           accept : {"any", "html"}, route : Routes])
 
 Expected(c) == LET e == EvalTop(c) IN
   [r |-> e.r, reason |-> e.reason, allmiss |-> e.allmiss, pe |-> e.pe, depends |-> Depends(c), html |-> WantsHtml(c.accept)]
